@@ -25,8 +25,12 @@ def inst_tag(name, cfg, defs):
 class Instance:
     """harness x configuration x cell parameters"""
 
-    def __init__(self, hname, cfg="s", defs=(), cap=None, rss=None, flags=None, label=None, tus=None):
+    def __init__(self, hname, cfg="s", defs=(), cap=None, rss=None, flags=None, label=None, tus=None, outer=None):
         self.h = registry.HARNESSES[hname]
+        # outer=N: loops of the accent-insensitive comparators that CONTAIN other loops get the bound N
+        # through --unwindset (computed from the current tree's loop list, see outer_unwindset); all
+        # other loops keep --unwind.  Sound either way: unwinding assertions stay on.
+        self.outer = outer
         self.hname = hname
         self.cfg = cfg
         self.defs = list(self.h.get("defs", [])) + list(defs)
@@ -67,6 +71,10 @@ class Instance:
                     tus.append(o)
                 objs[variant] = builder.link([hobj] + xobjs + tus, tag, self.cfg)
             func = h.get("func", self.hname)
+            if self.outer:
+                us = outer_unwindset(objs["main"], self.outer)
+                if us:
+                    self.flags = self.flags + ["--unwindset", us]
             self.query = core.Query(self.label, objs["main"], func, self.flags, self.cap, self.rss,
                                     meta={"inst": self})
             if not h.get("nowitness"):
@@ -76,6 +84,27 @@ class Instance:
         except core.BuildError as e:
             self.build_error = str(e)
         return self
+
+
+def outer_unwindset(gb, bound, fn_pat=r"compare_\w*noaccent"):
+    """--unwindset string giving `bound` to every loop of the matching functions that contains another
+    loop.  Loop ids are numbered by back edge, so (structured code) loop L contains loop L' iff L' has a
+    smaller number and a later head line.  Derived from the linked goto binary of the current tree on
+    every run: a change that adds, removes or reorders loops gets the right classification, and a loop
+    that needs more than its bound fails its unwinding assertion (inconclusive, never a silent pass)."""
+    import re, subprocess
+    out = subprocess.run(["goto-instrument", "--show-loops", gb], capture_output=True, text=True).stdout
+    loops = {}
+    for m in re.finditer(r"Loop (\S+)\.(\d+):\s*\n\s*file \S+ line (\d+) function (\S+)", out):
+        loops.setdefault(m.group(1), []).append((int(m.group(2)), int(m.group(3))))
+    items = []
+    for fn, ls in sorted(loops.items()):
+        if not re.search(fn_pat, fn):
+            continue
+        for num, line in ls:
+            if any(n2 < num and l2 > line for n2, l2 in ls):
+                items.append("%s.%d:%d" % (fn, num, bound))
+    return ",".join(items)
 
 
 def load_known():
@@ -377,7 +406,7 @@ def cmd_run(args):
         names += m if m else [pat]
     insts = [Instance(n, cfg=args.cfg, defs=defs, cap=args.cap, rss=args.rss,
                       flags=(["--unwind", str(args.unwind)] if args.unwind else None),
-                      tus=(args.tus.split(",") if args.tus else None)) for n in names]
+                      tus=(args.tus.split(",") if args.tus else None), outer=args.outer) for n in names]
     workdir = os.path.join(core.BUILD_ROOT, "run-%d" % os.getpid())
     os.makedirs(workdir, exist_ok=True)
     bad = 0
@@ -439,6 +468,7 @@ def main(argv):
     r.add_argument("-D", action="append")
     r.add_argument("--cap", type=int, default=None)
     r.add_argument("--unwind", type=int, default=None)
+    r.add_argument("--outer", type=int, default=None)
     r.add_argument("--tus", default=None)
     r.add_argument("--rss", type=float, default=None)
     r.add_argument("--nocache", action="store_true")
